@@ -133,6 +133,9 @@ def mk_call(q, args):
         return args[0]      # a read-only / copied view of a literal mapping maps the same keys to the same values
     if q in ("builtins.all", "builtins.any", "all", "any") and len(args) == 1 and args[0][0] == "tuple":
         return mk_bool("and" if q.endswith("all") else "or", args[0][1])
+    if q in ("builtins.any", "any") and len(args) == 1 and args[0][0] == "mapcomp":
+        # any(c(x) for x in S)  ==  not all(not c(x) for x in S): one spelling
+        return mk_not(("call", "all", (("mapcomp", args[0][1], mk_not(args[0][2])),)))
     if q in ("builtins.len", "len") and len(args) == 1 and args[0][0] in ("tuple", "str"):
         return num(len(args[0][1]))
     if q in ("builtins.bool", "bool") and len(args) == 1 and is_boolish(args[0]):
@@ -534,6 +537,13 @@ class Extractor:
                     seq = ("tuple", tuple(("tuple", (num(k), x)) for k, x in enumerate(seq[2][0][1])))
                 if seq[0] == "call" and seq[1] in ("zip", "builtins.zip") and all(a[0] == "tuple" for a in seq[2]) and seq[2]:
                     seq = ("tuple", tuple(("tuple", tuple(row)) for row in zip(*[a[1] for a in seq[2]])))
+                if seq[0] == "ite" and seq[2][0] == "tuple" and seq[3][0] == "tuple":
+                    # for x in (A if c else B): ...   ==   if c: for x in A: ...  else: for x in B: ...
+                    def loop_over(t):
+                        return ast.For(target=st.target, iter=_Term(t), body=st.body, orelse=[], lineno=st.lineno, col_offset=0)
+                    split = ast.If(test=_Term(seq[1]), body=[loop_over(seq[2])], orelse=[loop_over(seq[3])], lineno=st.lineno, col_offset=0)
+                    env2, ret, pend2 = self._block([split] + list(stmts[i + 1:]), env)
+                    return env2, ret, pend + pend2
                 if seq[0] == "tuple" and len(seq[1]) <= 24:
                     unrolled = []
                     for elt in seq[1]:
@@ -541,6 +551,17 @@ class Extractor:
                         unrolled += st.body
                     env2, ret, pend2 = self._block(unrolled + list(stmts[i + 1:]), env)
                     return env2, ret, pend + pend2
+            if isinstance(st, ast.For) and not st.orelse and isinstance(st.target, ast.Name) and len(st.body) == 1 and isinstance(st.body[0], ast.If) and not st.body[0].orelse \
+                    and len(st.body[0].body) == 1 and isinstance(st.body[0].body[0], ast.Return):
+                # for x in seq: if c(x): return K      ==      if any(c(x) for x in seq): return K
+                seq = self.ev(st.iter, env)
+                env2 = {**env, st.target.id: ("var", "$elt")}
+                cond = self.ev(st.body[0].test, env2)
+                rv = st.body[0].body[0].value
+                val = self.ev(rv, env2) if rv is not None else ("lit", None)
+                if not _mentions(val, ("var", "$elt")):
+                    pend.append((mk_call("any", (("mapcomp", seq, cond),)), val))
+                    continue
             if isinstance(st, ast.Try) and not st.finalbody and not st.orelse and all(
                     len(h.body) == 1 and isinstance(h.body[0], ast.Raise) for h in st.handlers):
                 # try: <computation> except ...: raise ...   -- the handlers only convert the exception
@@ -590,6 +611,12 @@ def fold_pending(pend, final):
     for c, v in reversed(pend):
         out = ite(c, v, out)
     return out
+
+
+def _mentions(t, leaf) -> bool:
+    if t == leaf:
+        return True
+    return isinstance(t, tuple) and any(_mentions(x, leaf) for x in t if isinstance(x, tuple))
 
 
 def subst_var(t, name, repl):
@@ -700,6 +727,7 @@ def _facts_of(c, truth, out):
 
 
 FACT_HEADS = ("cmp", "and", "or", "not", "var", "call", "attr", "method", "index")
+DISJOINT_BUILTINS = {"str", "tuple", "list", "dict", "set", "frozenset", "float", "bytes", "bytearray", "complex"}      # (int / bool are related: left out)
 
 
 def assume(t, c, truth):
@@ -710,6 +738,13 @@ def assume(t, c, truth):
     if not facts:
         return t
     memo = {}
+    # what is known about the builtin class of a subject: isinstance(x, (A, B)) true -> x is one of A, B
+    known_cls = {}
+    for f, v in facts:
+        if v and f[0] == "call" and f[1] == "isinstance" and len(f[2]) == 2 and f[2][1][0] == "op" and f[2][1][1] == "classes":
+            names = {c[1] for c in f[2][1][2] if c[0] == "var"}
+            if names and len(names) == len(f[2][1][2]) and names <= DISJOINT_BUILTINS:
+                known_cls[f[2][0]] = names
 
     def go(n):
         if not isinstance(n, tuple) or not n or not isinstance(n[0], str) or n[0] in ("num", "str", "lit"):
@@ -723,6 +758,13 @@ def assume(t, c, truth):
                 if n is f or (n[0] == f[0] and n == f):
                     res = ("lit", v)
                     break
+            if res is None and known_cls and n[0] == "call" and n[1] == "isinstance" and len(n[2]) == 2 and n[2][0] in known_cls and n[2][1][0] == "op":
+                asked = {c[1] for c in n[2][1][2] if c[0] == "var"}
+                if len(asked) == len(n[2][1][2]) and asked <= DISJOINT_BUILTINS:
+                    if known_cls[n[2][0]] <= asked:
+                        res = ("lit", True)
+                    elif not (known_cls[n[2][0]] & asked):
+                        res = ("lit", False)        # str / tuple / list / dict / float ... instances are never instances of one another
         if res is None:
             changed = False
             parts = []
@@ -1411,6 +1453,22 @@ def outer_conditions(t):
     return out
 
 
+def small_conditions(t, limit: int = 4):
+    """Conditions of conditionals anywhere in the term that are small (a flag, a short comparison) and contain no conditional."""
+    out = []
+    seen = set()
+    st = [t]
+    while st:
+        n = st.pop()
+        if not isinstance(n, tuple) or not n or id(n) in seen:
+            continue
+        seen.add(id(n))
+        if isinstance(n[0], str) and n[0] == "ite" and not contains_ite(n[1]) and size(n[1]) <= limit and n[1] not in out:
+            out.append(n[1])
+        st.extend(x for x in n if isinstance(x, tuple))
+    return out
+
+
 def compare_lifted(code, ref, policy, rounds: int = 3):
     """compare(), and when that leaves mismatches, once more after case-splitting both sides on their outermost
     conditions (`f(c ? a : b)` and `c ? f(a) : f(b)` are the same function). Returns (mismatches, code, ref) of the
@@ -1419,11 +1477,15 @@ def compare_lifted(code, ref, policy, rounds: int = 3):
     if not ms:
         return ms, code, ref
     c2 = code
+    tried = []
     r2 = substitute(ref, {k: ("var", v) for k, v in policy.var_map.items()}) if policy.var_map else ref     # one vocabulary for the conditions
     for _ in range(rounds):
         conds = outer_conditions(c2)
         conds += [c for c in outer_conditions(r2) if c not in conds]
+        conds += [c for c in small_conditions(c2) + small_conditions(r2) if c not in conds]
+        conds = [c for c in conds if c not in tried]
         conds = sorted(conds, key=lambda c: (size(c), repr(c)))[:3]
+        tried += conds
         if not conds:
             break
         before = (c2, r2)
